@@ -23,6 +23,8 @@ Checked after every operation of a history:
 * ``merge()`` of a detached object whose key carries an identity token (row exists, identity
   not yet in the session) yields the identity-map object of *that* key, and a following
   ``get(..., identity_token=tok)`` returns it with zero statements;
+* an identity key, once assigned, changes only through a primary-key switch made by the
+  history (in particular it never loses its identity token);
 * ``Session.get`` of an identity that is present and whose ``InstanceState.expired`` is
   False returns that object and the M-spy DBAPI log shows **zero** statements
   (``populate_existing`` / ``with_for_update`` variants are exempt from the SQL clause,
@@ -69,7 +71,7 @@ META = {
     "soft_s": {"quick": 50, "thorough": 800},
     "exhaustive": {"quick": False, "thorough": False},
     "require": ["invariant_checks", "returned_checked", "returned_already_held", "get_no_sql_checked",
-                "pk_switch_flushed", "readd_refused_or_done", "key_reused_after_delete", "merge_token_loaded_checked"],
+                "pk_switch_flushed", "readd_refused_or_done", "key_reused_after_delete", "merge_token_loaded_checked", "merge_token_noload_flushed"],
     "assumptions": ["the harness holds every object it receives, so identity comparisons are never confused by id() reuse"],
 }
 
@@ -93,6 +95,7 @@ class Hist:
         self.violated = False
         self.new_in_txn = set()   # ids of objects added as new since the last full commit / rollback
         self.block_n = False      # see pick_cls()
+        self.keys = {}            # id(obj) -> identity key last seen (key stability)
         self.life = {}   # id(obj) -> [(op index, lifecycle event)]
         self.pk_switched = set()   # ids of objects whose primary key the harness changed
 
@@ -157,6 +160,22 @@ class Hist:
                                    self.wit({"map_key": repr(key)}))
         if self.violated:
             return     # a detached object in the map also displaces fresh loads: one report
+        # an identity key, once assigned, changes only through a primary key switch
+        for o in list(self.held.values()):
+            st = self.inspect(o)
+            prev = self.keys.get(id(o))
+            if st.key is not None:
+                if prev is not None and prev != st.key and id(o) not in self.pk_switched:
+                    tok = prev[1] == st.key[1] and prev[2] != st.key[2]
+                    self.viol("identity-token-dropped-from-key" if tok and st.key[2] is None
+                              else "identity-key-changed-without-pk-switch",
+                              f"{type(o).__name__} key {prev[1:]} became {st.key[1:]} after {self.trace[-1]} "
+                              f"(state.identity_token={st.identity_token!r})",
+                              self.wit({"before": repr(prev[1:]), "after": repr(st.key[1:]), "life": self.life.get(id(o))}))
+                    return
+                self.keys[id(o)] = st.key
+            else:
+                self.keys.pop(id(o), None)
         groups = {}
         for o in list(self.held.values()):
             st = self.inspect(o)
@@ -412,8 +431,8 @@ def build_ops(h):
                            "detached_token"])
         anytok = [o for o in h.held.values() if h.inspect(o).detached and h.inspect(o).key[2] is not None
                   and not h.inspect(o).modified and not (h.block_n and type(o) is N)]
-        if anytok and rng.random() < 0.35:
-            kind, cls = "detached_token", type(rng.choice(anytok))
+        if anytok and rng.random() < 0.5:
+            kind, cls = rng.choice(["detached_token", "detached_token", "detached_token_noload"]), type(rng.choice(anytok))
         if kind.startswith("detached"):
             cands = h.of(cls, lambda st: st.detached and not st.modified)
             if kind == "detached_token":
@@ -423,13 +442,15 @@ def build_ops(h):
                 cands = [o for o in cands if h.inspect(o).key[2] is not None and h.row_exists(o)]
                 absent = [o for o in cands if not h.persistent_for(h.inspect(o).key)]
                 cands = absent or cands
-            if kind == "detached_noload":
+            if kind == "detached_token_noload":
+                cands = [o for o in cands if h.inspect(o).key[2] is not None]
+            if kind.endswith("noload"):
                 cands = [o for o in cands if h.graph_rows_exist(o)]
             if not cands:
                 return None
             src = rng.choice(cands)
             was_present = bool(h.persistent_for(h.inspect(src).key))
-            got = s.merge(src, load=(kind != "detached_noload"))
+            got = s.merge(src, load=not kind.endswith("noload"))
             st = h.inspect(src)
             h.see(got)
             if h.inspect(got).persistent:  # (row gone from the database -> merged copy is pending)
@@ -441,6 +462,7 @@ def build_ops(h):
                     if not was_present:
                         h.ctx.count("merge_token_loaded_checked")
                     ident = st.key[1][0] if len(st.key[1]) == 1 else tuple(st.key[1])
+                    expired_before = h.inspect(got).expired     # (merge onto a present, expired instance)
                     mark = h.rig.spy.mark()
                     again = s.get(cls, ident, identity_token=st.key[2])
                     stmts = h.rig.nstatements(mark)
@@ -448,12 +470,23 @@ def build_ops(h):
                         h.viol("get-after-merge-returns-other-object-for-token-identity",
                                f"merge of {cls.__name__}{tuple(st.key[1])} token={st.key[2]!r} gave one object, "
                                f"get(..., identity_token=...) another", h.wit())
-                    elif stmts and not h.inspect(got).expired:
+                    elif stmts and not expired_before:
                         h.viol("get-emits-sql-for-present-unexpired-identity",
-                               f"get after merge emitted {len(stmts)} statement(s) for a token identity", h.wit())
+                               f"get after merge emitted {len(stmts)} statement(s) for a token identity",
+                               h.wit({"sql": [e.sql for e in stmts][:3], "kind": kind, "cls": cls.__name__}))
             if got is src:
                 h.viol(h.mech_detached(src) if s.identity_map.get(st.key) is src else "merge-returns-foreign-object",
                        "merge returned the detached source itself", h.wit())
+            if kind == "detached_token_noload" and not h.violated and h.inspect(got).persistent:
+                # input class: the copy made without a load takes part in a flush (its key is
+                # re-derived from the state there) - the invariant check after the op judges it
+                h.keys[id(got)] = h.inspect(got).key
+                if cls is P:
+                    got.name = h.uniq("tn")
+                else:
+                    got.v = h.uniq("tn")
+                s.flush()
+                h.ctx.count("merge_token_noload_flushed")
             return ("merge", cls.__name__, kind)
         pks = h.known_pks(cls)
         if kind == "transient_existing" and pks:
